@@ -345,6 +345,14 @@ def encoder_corpus(pid):
     for n in (1, 2, 64, 65, 130):
         cases.append((f"tt rec {n}", ("record", [(3 * i, "nat8") for i in range(n)]), [(3 * i, i & 0xff) for i in range(n)]))
         cases.append((f"tt var {n}", ("variant", [(2 * i, "null") for i in range(n)]), ("variant", 2 * (n - 1), None)))
+    # untyped number literals encoded without a type: the type is int, the bytes are SLEB128 (edges of the 7-bit groups,
+    # of the 64-bit range, both signs)
+    for v in sorted({s * (2 ** k + d) for k in (0, 6, 7, 13, 14, 20, 21, 62, 63, 64, 70) for d in (-1, 0, 1) for s in (1, -1)} | {0, 100, 16000, -16000}):
+        cases.append((f"tu number {v}", "int", v))
+    for v in (64, 127, 8192, -65, 2 ** 64):
+        cases.append((f"tu numrec {v}", ("record", [(1, "int")]), [(1, v)]))
+        cases.append((f"tu numvec {v}", ("vec", "int"), [v, v]))
+        cases.append((f"tu numopt {v}", ("opt", "int"), ("some", v)))
     p = subprocess.run([exe], input="\n".join(c[0] for c in cases) + "\n", capture_output=True, text=True, timeout=600)
     outs = p.stdout.splitlines()
     failures = []
